@@ -42,7 +42,7 @@ B64 = "ABCDEFGHIJKLMNOPQRSTUVWXYZabcdefghijklmnopqrstuvwxyz0123456789+/"
 
 def plan(tier, seed):
     n = 16 if tier == "quick" else 64
-    return [{"seed": seed, "shard": i, "nshards": n, "tier": tier, "n": 24 if tier == "quick" else 120, "synthetic": 40 if tier == "quick" else 300} for i in range(n)]
+    return [{"seed": seed, "shard": i, "nshards": n, "tier": tier, "n": 50 if tier == "quick" else 250, "synthetic": 100 if tier == "quick" else 600} for i in range(n)]
 
 
 # ------------------------------------------------------------------------------------------------ independent VLQ decoder
